@@ -179,8 +179,11 @@ def check_chunk(col, kind, elems, st, T, chunk_id=0, premodel=False):
         col.violation("construct", case, f"{type(ex).__name__}: {ex}")
         return
     exp = [expected_measures(kind, e, s) for e in model]
-    views = [("full", arr0, 0, len(model)), ("slice[1:]", arr0[1:], 1, len(model)),
-             ("slice[2:-1]", arr0[2:-1], 2, len(model) - 1)]
+    views = [("full", arr0, 0, len(model))]
+    if len(model) >= 2:
+        views.append(("slice[1:]", arr0[1:], 1, len(model)))
+    if len(model) >= 4:
+        views.append(("slice[2:-1]", arr0[2:-1], 2, len(model) - 1))
     # slices starting on byte boundaries of the validity bitmap (more missing rows are placed around them below)
     for off in (8, 16):
         if len(model) > off + 2:
@@ -273,8 +276,25 @@ def check_chunk(col, kind, elems, st, T, chunk_id=0, premodel=False):
                     for i in range(len(model)))
     if not ok:
         col.violation(f"{kind}.geoseries", case, "GeoSeries.area/length differ from expected")
-    col.sample({"kind": kind, "subtype": st, "T": list(T), "element": jelem(model[1]),
-                "expected_area": exp[1][0], "expected_length": exp[1][1][1]})
+    k = min(1, len(model) - 1)
+    col.sample({"kind": kind, "subtype": st, "T": list(T), "element": jelem(model[k]),
+                "expected_area": exp[k][0], "expected_length": exp[k][1][1]})
+
+
+def small_arrays(col, kind, st):
+    """every array of <= 3 elements over {missing, empty, 1 part, 2 parts, 3 parts}: the number of rings / parts in the
+    buffers relative to the number of elements takes every small combination (incl. equal counts unevenly distributed)"""
+    R = RINGS
+    if kind == "polygon":
+        pool = [None, (), (R[6],), (R[6], R[7]), (R[4], R[7], R[9])]
+    elif kind == "multipolygon":
+        pool = [None, (), ((R[6],),), ((R[6], R[7]),), ((R[4],), (R[9], R[0])), ((R[5],), (R[6], R[7]), (R[10],))]
+    else:
+        pool = [None, (), (R[9],), (R[9], R[1]), (R[4], R[2], R[10])]
+    for n in (1, 2, 3):
+        for seq in itertools.product(range(len(pool)), repeat=n):
+            elems = [pool[k] for k in seq]
+            check_chunk(col, kind, elems, st, (1, 0, 0), premodel=True)
 
 
 def plan(ctx):
@@ -285,6 +305,13 @@ def plan(ctx):
             step = 150
             for c in range(0, len(fam), step):
                 units.append((kind, st, fam[c:c + step], None))
+            if st in ("int32", "int64", "float64") and kind in ("polygon", "multipolygon", "ring", "line"):
+                # small shapes a long way from the origin: coordinate x difference stays exact, coordinate x coordinate does not
+                far = family(kind, False, False)
+                units.append((kind, st, far[:150], (1, 2 ** 30, -(2 ** 30))))
+                units.append((kind, st, far[-150:], (4, -(2 ** 30) + 1, 2 ** 29 + 3)))
+            if kind in ("polygon", "multipolygon", "multiline") and st in ("float64", "int32"):
+                units.append((kind, st, "small_arrays", (1, 0, 0)))
             wf = wide_family(kind, st)
             for c in range(0, len(wf), 2500):
                 units.append((kind, st, wf[c:c + 2500], (1, 0, 0)))
@@ -303,6 +330,9 @@ def run(ctx):
     def work(col, i):
         j = (i + rot) % len(units)
         kind, st, fam, Tfix = units[j]
+        if isinstance(fam, str):
+            small_arrays(col, kind, st)
+            return
         T = Tfix or L.transform_for(st, ctx.seed, salt=j)
         check_chunk(col, kind, fam, st, T, j)
         if T != (1, 0, 0) and st == "float64":
